@@ -57,6 +57,11 @@ pub fn run() {
                 }
                 None => "none".to_string(),
             },
+            // c01gen <n> <seed>: n strings from the C01 generators (valid notations, edited ones, noise)
+            ["c01gen", n, seed] => {
+                let v = crate::props::c01::sample_strings(n.parse().unwrap_or(0), seed.parse().unwrap_or(1));
+                format!("ok {}", v.iter().map(|t| hex_str(t)).collect::<Vec<_>>().join(","))
+            }
             // grad <space> <n> <hex colour string>...: the gradient the property describes, built
             // through the library: stops at i/(k-1), samples at j/(n-1); answers the printed lines
             ["grad", sp, n, cols @ ..] => {
